@@ -65,6 +65,10 @@ def special_vectors(spec: NetSpec):
         out.append((f"base{b}", base))
         neg = {k: ([-x for x in v] if k[1] in ("rho", "v", "w") else list(v)) for k, v in base.items()}
         out.append((f"base{b}-negated", neg))
+        if any(k[0].startswith("D") for k in base):
+            # ... and the scenario density of congested destinations negative too (no option names it: never clamped)
+            negd = {k: ([-x for x in v] if (k[1] in ("rho", "v", "w") or k[0].startswith("D")) else list(v)) for k, v in base.items()}
+            out.append((f"base{b}-negated-with-destination-scenario", negd))
         mixed = {}
         t = 0
         for k, v in base.items():
